@@ -4,6 +4,7 @@ CONSTANTS
   MaxPar = 3
   Consistent = TRUE
   WithBreakdown = FALSE
+  CheckAfterGuarded = TRUE
 INIT Init
 NEXT Next
 INVARIANTS Budget ExitReason Provenance Work Emit
